@@ -175,6 +175,76 @@ let rec parse_member t : member =
       let k = int t in MCompound (times k (fun () -> parse_member t))
   | s -> failwith ("bad member " ^ s)
 
+
+(* ---------- histories (C20) ---------- *)
+
+let parse_item_hist t : item_hist =
+  let ty = num t in let value = hex t in
+  let owned = (match next t with "o" -> true | "b" -> false | s -> failwith ("bad add mode " ^ s)) in
+  let k = int t in
+  let ops = times k (fun () ->
+    match next t with
+    | "prefix" -> IPrefix (hex t)
+    | "own" -> IIntoOwned
+    | s -> failwith ("bad item op " ^ s)) in
+  { ih_type = ty; ih_value = value; ih_ops = ops; ih_add_owned = owned }
+
+let parse_fci_hist t : fci_hist =
+  match next t with
+  | "nack" -> let k = int t in FHNack (times k (fun () -> num t))
+  | "fir" -> let k = int t in FHFir (times k (fun () -> let a = num t in let b = num t in (a, b)))
+  | "sli" -> let k = int t in
+      FHSli (times k (fun () -> let a = num t in let b = num t in let c = num t in ((a, b), c)))
+  | "rpsi" -> let k = int t in
+      FHRpsi (times k (fun () ->
+        match next t with
+        | "pt" -> RPt (num t)
+        | "data" -> let d = hex t in let ov = num t in RData (d, ov)
+        | "dataown" -> let d = hex t in let ov = num t in RDataOwned (d, ov)
+        | s -> failwith ("bad rpsi op " ^ s)))
+  | "pli" -> FHPli
+  | s -> failwith ("bad fci hist " ^ s)
+
+let parse_hist t : hist =
+  let w = (match next t with "d" -> WDirect | "pb" -> WPacketBuilder | "comp" -> WCompound
+                           | s -> failwith ("bad wrap " ^ s)) in
+  let init = (match next t with
+    | "sr" -> HSr (num t)
+    | "rr" -> HRr (num t)
+    | "app" -> let s = num t in let n = hex t in HApp (s, n)
+    | "bye" -> HBye
+    | "sdes" -> HSdes
+    | "unk" -> let ty = num t in let d = hex t in HUnk (ty, d)
+    | "fb" ->
+        let k = (match next t with "t" -> Transport | "p" -> Payload | s -> failwith ("bad kind " ^ s)) in
+        let _own = next t in
+        let f = parse_fci_hist t in HFb (k, f)
+    | s -> failwith ("bad hist init " ^ s)) in
+  let rec ops acc =
+    match next t with
+    | "end" -> List.rev acc
+    | "pad" -> ops (OPad (num t) :: acc)
+    | "ntp" -> ops (ONtp (num t) :: acc)
+    | "rtp" -> ops (ORtp (num t) :: acc)
+    | "pc" -> ops (OPc (num t) :: acc)
+    | "oc" -> ops (OOc (num t) :: acc)
+    | "rb" -> ops (ORb (parse_rb t) :: acc)
+    | "subtype" -> ops (OSubtype (num t) :: acc)
+    | "data" -> ops (OData (hex t) :: acc)
+    | "src" -> ops (OSrc (num t) :: acc)
+    | "reason" -> ops (OReason (hex t) :: acc)
+    | "reasonown" -> ops (OReasonOwned (hex t) :: acc)
+    | "chunk" ->
+        let ssrc = num t in let ni = int t in
+        let items = times ni (fun () -> parse_item_hist t) in
+        ops (OChunk (chunk_of_hist { chh_ssrc = ssrc; chh_items = items }) :: acc)
+    | "count" -> ops (OCount (num t) :: acc)
+    | "sender" -> ops (OSender (num t) :: acc)
+    | "media" -> ops (OMedia (num t) :: acc)
+    | s -> failwith ("bad op " ^ s) in
+  let o = ops [] in
+  { h_init = init; h_ops = o; h_wrap = w }
+
 let parse_entry (s : String.t) : entry =
   match String.split_on_char ':' s with
   | ["compound"] -> ECompound
@@ -232,6 +302,8 @@ let run_line (line : String.t) : unit =
              let c = parse_item t in
              let size = size_of (item_calc c) in
              print_kvs id (run_build_item c (parse_bufs bufs size))
+         | "hist" ->
+             print_kvs id (run_hist (parse_hist t))
          | _ -> Printf.printf "%s\tBADCASE=unknown-kind\n" id)
       with Failure msg -> Printf.printf "%s\tBADCASE=%s\n" id msg)
   | [id] -> Printf.printf "%s\tBADCASE=short\n" id
